@@ -14,14 +14,17 @@ This file closes that gap where it can be closed by proof, and records where the
 * LoadBalancerS2 (`PcProofs/SafetyLB.lean`): the whole-history int64 safety claim for `sieve_limit ≤ 2^62 + 2^33` is REFUTED by a
   kernel-checked history recorded on the real object under a constant (legal: monotone) clock (`s2_history_overflow_witness`);
   what holds of every history (`s2_hands_below`) and what one step needs (`s2_step_no_overflow_of_hand_partial`).
-* FINDING (P2.cpp:109): `(a - 2) * (a + 1)` is an `int64_t` product also for `T = int128_t` and overflows for every
-  `a = π(y) ≥ 3037000501` (`P2_128_closed_form_overflows`; real code: `primecount 1e22 --P2 --alpha=3713.2` prints a negative
-  number, UBSan reports `P2.cpp:109:19: signed integer overflow: 3324998166 * 3324998169`; under default tuning every
-  `primecount x --P2` / `-d` with `x ≥ ~2·10^26`).
+* FINDING F9 (P2.cpp:109 of /repo 0995f00, REPAIRED in /repo 8cccffb): `(a - 2) * (a + 1)` was an `int64_t` product also for
+  `T = int128_t` and overflowed for every `a = π(y) ≥ 3037000501` (`P2_128_closed_form_overflows` about the pre-fix mirror
+  `p2OpenMPCPreFix`; real code of 0995f00: `primecount 1e22 --P2 --alpha=3713.2` printed a negative number, UBSan reported
+  `P2.cpp:109:19: signed integer overflow: 3324998166 * 3324998169`).  The current line (`T pi_y = a; (pi_y - 2) * (pi_y + 1) …`)
+  is `p2InitC`; for it `P2_128_no_overflow` holds with no bound on `a`.
 -/
 import PcProofs.SafetyP2Region
 import PcProofs.P2LoopEx
 import PcProofs.SafetyLB
+import PcProofs.SafetySigmaTop
+import PcProofs.SafetyTrivial
 
 namespace Pc.C16Safety
 open Pc.P2L Pc.LB Pc.Safety Finset
@@ -62,43 +65,45 @@ theorem P2_thread_no_overflow {it : Iter} (hit : IterSpec it) {pi : ℕ → ℕ}
 /-! ## P2_OpenMP -/
 
 /-- **`P2(int64_t x, y, a)` never overflows**, for EVERY `x < 2^63`, every `y`, `a = π(y)`, every valid run of the parallel
-    region (team, call order, clock, reduction order): the closed form of P2.cpp:109 (`a ≤ π(√x) < 3037000500`), every
+    region (team, call order, clock, reduction order): the closed form of P2.cpp:112 (`a ≤ π(√x)`, `π(√x)² ≤ x`), every
     `pi_xp`, every thread-local / thread-private / reduced `sum` lie in `int64_t`, and the result is `P2(x, a)` -/
 theorem P2_64_no_overflow {it : Iter} (hit : IterSpec it) {pi : ℕ → ℕ} {x y a : ℕ} (hpi : ∀ n, n < x → pi n = π n)
     (ha : a = π y) (hya : pi y = a) (c : Consts) (hc : c.WF) (hx : x < 2 ^ 63) (r : Run)
     (hv : 4 ≤ x → y < Nat.sqrt x → r.valid c x (x / max y 1) = true) :
     p2OpenMPC (2 ^ 63 - 1) c it pi x y a r = .ok (Spec.P2 x a : ℤ) := by
   have hxy : x / max y 1 < two63 := lt_of_le_of_lt (Nat.div_le_self _ _) (by unfold two63; omega)
-  refine p2OpenMPC_eq hit hpi ha hya c hc hxy r hv _ (by omega) ?_
-  intro hy
-  have h1 : Nat.sqrt x < 3037000500 := Nat.sqrt_lt'.2 (by omega)
-  have h2 := pi_le_self y
-  omega
+  exact p2OpenMPC_eq hit hpi ha hya c hc hxy r hv _ (by omega)
 
-/-- `P2(int128_t x, y, a)` for `x < 2^127`: safe WHEN `π(y) ≤ 3037000500` (see the finding below for the rest) -/
-theorem P2_128_no_overflow_of_small_a {it : Iter} (hit : IterSpec it) {pi : ℕ → ℕ} {x y a : ℕ}
+/-- **`P2(int128_t x, y, a)` never overflows** (the code since /repo 8cccffb): EVERY `x < 2^127` whose `x / max(y, 1)` fits the
+    narrowing `(int64_t)(x / max(y, 1))` of P2.cpp:115 (guaranteed by the range check of the 128-bit entry points:
+    `range_check_guarantee`), every `y`, `a = π(y)` — NO bound on `a` — every valid run: the operands and products of the closed
+    form (all `int128_t` now), every `pi_xp`, every thread-local / thread-private / reduced `sum` lie in their types; result `P2(x, a)` -/
+theorem P2_128_no_overflow {it : Iter} (hit : IterSpec it) {pi : ℕ → ℕ} {x y a : ℕ}
     (hpi : ∀ n, n < x → pi n = π n) (ha : a = π y) (hya : pi y = a) (c : Consts) (hc : c.WF) (hx : x < 2 ^ 127)
-    (hxy : x / max y 1 < 2 ^ 63) (r : Run) (hv : 4 ≤ x → y < Nat.sqrt x → r.valid c x (x / max y 1) = true)
-    (hsmall : a ≤ 3037000500) :
+    (hxy : x / max y 1 < 2 ^ 63) (r : Run) (hv : 4 ≤ x → y < Nat.sqrt x → r.valid c x (x / max y 1) = true) :
     p2OpenMPC (2 ^ 127 - 1) c it pi x y a r = .ok (Spec.P2 x a : ℤ) :=
-  p2OpenMPC_eq hit hpi ha hya c hc (by unfold two63; omega) r hv _ (by omega) (fun _ => hsmall)
+  p2OpenMPC_eq hit hpi ha hya c hc (by unfold two63; omega) r hv _ (by omega)
 
-/-- **FINDING (P2.cpp:109)**: `T sum = (a - 2) * (a + 1) / 2 - …` with `int64_t a` multiplies in `int64_t` although
-    `T = int128_t`: for EVERY `x ≥ 4`, `y < √x` and `a = pi_noprint(y) ≥ 3037000501` — whatever the run — the product
-    leaves `int64_t` (signed overflow, undefined behaviour; observed: the result is off by `2^63`) -/
+/-- **FINDING F9 (P2.cpp:109 before /repo 8cccffb; repaired there)**: `T sum = (a - 2) * (a + 1) / 2 - …` with `int64_t a`
+    multiplied in `int64_t` although `T = int128_t`: for EVERY `x ≥ 4`, `y < √x` and `a = pi_noprint(y) ≥ 3037000501` — whatever
+    the run — the product left `int64_t` (signed overflow, undefined behaviour; observed: the result was off by `2^63`).
+    About `p2OpenMPCPreFix`, the mirror of the pre-fix text; the current text is covered by `P2_128_no_overflow`. -/
 theorem P2_128_closed_form_overflows (tMax : ℕ) (c : Consts) (it : Iter) (pi : ℕ → ℕ) (x y a : ℕ) (r : Run)
     (hx : 4 ≤ x) (hy : y < isqrtN x) (ha : a = pi y) (hbig : 3037000501 ≤ a) :
-    p2OpenMPC tMax c it pi x y a r = .error .ovfInitA := by
-  unfold p2OpenMPC
+    p2OpenMPCPreFix tMax c it pi x y a r = .error .ovfInitA := by
+  unfold p2OpenMPCPreFix
   rw [if_neg (by rw [ha]; exact fun h => h rfl), if_neg (by omega)]
   simp only
-  rw [if_neg (by omega), p2InitC_overflows _ _ _ _ hbig]
+  rw [if_neg (by omega), p2InitCPreFix_overflows _ _ _ _ hbig]
 
-/-- the threshold is exact: the product fits for `a = 3037000500` and not for `a = 3037000501` -/
+/-- the threshold of the pre-fix line is exact (the product fits for `a = 3037000500`, not for `a = 3037000501`), and the
+    repaired line computes the exact value `0` at `a = b = 3037000501` and at the 0.1 s reproducer's `a = b = 4118054813` -/
 theorem closed_form_threshold :
-    p2InitC (-(2 ^ 127 : ℤ)) (2 ^ 127 - 1) 3037000500 3037000500 = .ok 0 ∧
-    p2InitC (-(2 ^ 127 : ℤ)) (2 ^ 127 - 1) 3037000501 3037000501 = .error .ovfInitA := by
-  constructor <;> decide
+    p2InitCPreFix (-(2 ^ 127 : ℤ)) (2 ^ 127 - 1) 3037000500 3037000500 = .ok 0 ∧
+    p2InitCPreFix (-(2 ^ 127 : ℤ)) (2 ^ 127 - 1) 3037000501 3037000501 = .error .ovfInitA ∧
+    p2InitC (-(2 ^ 127 : ℤ)) (2 ^ 127 - 1) 3037000501 3037000501 = .ok 0 ∧
+    p2InitC (-(2 ^ 127 : ℤ)) (2 ^ 127 - 1) 4118054813 4118054813 = .ok 0 := by
+  refine ⟨?_, ?_, ?_, ?_⟩ <;> decide
 
 /-! ## B_OpenMP -/
 
@@ -121,6 +126,87 @@ theorem B_128_no_overflow {it : Iter} (hit : IterSpec it) {pi : ℕ → ℕ} {x 
   have : (x : ℤ) < 2 ^ 127 := by exact_mod_cast hx
   omega
 
+
+
+/-! ## Sigma (Sigma.cpp): closed forms, prime loop, whole function (WP safety2) -/
+
+/-- **`Sigma0 … Sigma3` never leave `T`** (Sigma.cpp:30-53), for EVERY `x ≤ tMax` (so: every `x < 2^63` with `T = int64_t`, every
+    `x < 2^127` with `T = int128_t`) and every `y` with `x^(1/3) ≤ y ≤ √x`, `√(x/y) ≤ x^(1/3)` (Gourdon's parameter domain): every
+    intermediate value of the four closed forms (differences, products, the `/ 2`, `/ 6`, partial sums — in C++ evaluation order)
+    lies in `T`, with `a = π(y)`, `b = π(x^(1/3))`, `c = π(√(x/y))`, `d = π(x⋆)`, `pi_sqrtx = π(√x)`. -/
+theorem Sigma_closed_forms_no_overflow {x y tMax : ℕ} (hy1 : 1 ≤ y) (hy2 : y * y ≤ x) (hc3y : irootN 3 x ≤ y)
+    (hsc : Nat.sqrt (x / y) ≤ irootN 3 x) (hxT : x ≤ tMax) (hT : 2 ≤ tMax) :
+    sigma0C tMax (π (Nat.sqrt x)) (π y) = .ok (sigma0P (π (Nat.sqrt x)) (π y)) ∧
+    sigma1C tMax (π y) (π (irootN 3 x)) = .ok (sigma1 (π y) (π (irootN 3 x))) ∧
+    sigma2C tMax (π y) (π (irootN 3 x)) (π (Nat.sqrt (x / y))) (π (xStar x y))
+      = .ok (sigma2 (π y) (π (irootN 3 x)) (π (Nat.sqrt (x / y))) (π (xStar x y))) ∧
+    sigma3C tMax (π (irootN 3 x)) (π (xStar x y)) = .ok (sigma3 (π (irootN 3 x)) (π (xStar x y))) := by
+  have H := sigma_closed_hyps hy1 hy2 hc3y hsc
+  exact ⟨sigma0C_ok _ _ _ H.hap (le_trans H.hps hxT), sigma1C_ok _ _ _ H.hba (le_trans H.haa hxT),
+    sigma2C_ok _ _ _ _ _ hT H.hdc H.hcb (le_trans H.hab hxT) (le_trans H.hac hxT) (le_trans H.hcc hxT) (le_trans H.hbx hxT),
+    sigma3C_ok _ _ _ (by omega) (le_trans H.hdc H.hcb) (le_trans H.hb3 hxT)⟩
+
+/-- **the prime loop of `Sigma456`, width-checked** (Sigma.cpp:75-90): `sigma4`, `sigma5`, `sigma6` are sums of non-negative terms;
+    when their FINAL values fit `T`, no prefix and no product `pi_sqrt_xp * (T) pi_sqrt_xp` leaves `T`, and the checked loop
+    returns what the unchecked loop (`sigma456Step`) returns -/
+theorem Sigma456_loop_no_overflow {t : NT} {tMax : ℕ} {w : ITy} {x y xs x13 maxX : ℕ} (H : SigmaLoopOK w x y xs x13 maxX)
+    (l : List ℕ) (hl : ∀ q ∈ l, xs < q ∧ q ≤ x13)
+    (b4 : (l.map (sg4 t x y (Nat.sqrt (x / y)))).sum ≤ tMax) (b5 : (l.map (sg5 t x (Nat.sqrt (x / y)))).sum ≤ tMax)
+    (b6 : (l.map (sg6 t x)).sum ≤ tMax) :
+    l.foldlM (sigma456StepC tMax t w x y maxX (Nat.sqrt (x / y))) ⟨0, 0, 0⟩
+      = liftL (l.foldlM (sigma456Step t w x y maxX (Nat.sqrt (x / y))) ⟨0, 0, 0⟩) := by
+  rw [sigma456_fold H l _ hl, sigma456C_fold H l ⟨0, 0, 0⟩ hl (le_refl _) (le_refl _) (le_refl _)
+    (by simpa using b4) (by simpa using b5) (by simpa using b6)]
+  rfl
+
+/-- the final values: `sigma4 *= a` and `sigma6` are `≤ 6x` (ordered prime triples), `sigma5 ≤ x^(1/3) · y ≤ x` -/
+theorem Sigma456_final_bounds {t : NT} {x y : ℕ} (D : SigmaDom t x y) :
+    (t.piOf y : ℤ) * ((t.primesIn (xStar x y) (irootN 3 x)).map (sg4 t x y (Nat.sqrt (x / y)))).sum ≤ 6 * (x : ℤ) ∧
+    ((t.primesIn (xStar x y) (irootN 3 x)).map (sg5 t x (Nat.sqrt (x / y)))).sum ≤ (irootN 3 x : ℤ) * y ∧
+    ((t.primesIn (xStar x y) (irootN 3 x)).map (sg6 t x)).sum ≤ 6 * (x : ℤ) :=
+  ⟨sigma4_final_le D, sigma5_final_le D, sigma6_final_le D⟩
+
+/-- **`Sigma(x, y)` stores no value outside `T`** — PARTIAL in the constant: proved for `11 x + 4 ≤ tMax`.  Every intermediate of
+    `Sigma0 … Sigma3`, every prefix of `sigma4/5/6`, every product, `sigma4 *= a`, `-sigma6`, and the six final additions of
+    Sigma.cpp:92-95 / 127-131 lie in `T`; the value is `Σ0 + … + Σ6`.  Missing for full strength with `T = int64_t`:
+    `x ∈ ((2^63 - 5) / 11, 2^63)` (≈ `[8.4·10^17, 9.2·10^18]`) — the bounds `Σ4, Σ6 ≤ 6x` would have to be replaced by
+    Mertens-type bounds.  For `T = int128_t` the entry point accepts `x ≤ 10^31` only: `Sigma_128_no_overflow`. -/
+theorem Sigma_no_overflow_partial {t : NT} {x y : ℕ} (D : SigmaDom t x y) {w : ITy} (hy2 : y * y ≤ x)
+    (hsc : Nat.sqrt (x / y) ≤ irootN 3 x) (hw : y * y ≤ w.maxVal) (h63 : t.bound ≤ ITy.i64.maxVal)
+    {tMax : ℕ} (hM : 11 * x + 4 ≤ tMax) :
+    sigmaC tMax t w x y = .ok (Spec.Sigma0 x (π y) + Spec.Sigma1 (π y) (π (irootN 3 x))
+      + Spec.Sigma2 (π y) (π (irootN 3 x)) (π (Nat.sqrt (x / y))) (π (xStar x y))
+      + Spec.Sigma3 (π (irootN 3 x)) (π (xStar x y)) + Spec.Sigma4 x y (xStar x y)
+      + Spec.Sigma5 x y (irootN 3 x) + Spec.Sigma6 x (xStar x y) (irootN 3 x)) := by
+  rw [sigmaC_eq_partial D hy2 hsc hw h63 hM, sigma_eq D.hv D.hy1 D.hc3y hsc D.hyb D.hs D.hm4 hw h63]
+  rfl
+
+/-- **`Sigma(int128_t x, y)` never overflows**: EVERY `x ≤ 10^31` (the limit of the 128-bit entry points), every `y` of the domain -/
+theorem Sigma_128_no_overflow {t : NT} {x y : ℕ} (D : SigmaDom t x y) (hx : x ≤ 10 ^ 31) (hy2 : y * y ≤ x)
+    (hsc : Nat.sqrt (x / y) ≤ irootN 3 x) (h63 : t.bound ≤ ITy.i64.maxVal) :
+    sigmaC (2 ^ 127 - 1) t .i128 x y = liftL (sigma t .i128 x y) :=
+  sigmaC_eq_partial D hy2 hsc (le_trans hy2 (le_trans hx (by decide))) h63 (by omega)
+
+/-- `Sigma(int64_t x, y)`: PARTIAL, `x ≤ 838488366986797800 = (2^63 - 5) / 11` -/
+theorem Sigma_64_no_overflow_partial {t : NT} {x y : ℕ} (D : SigmaDom t x y) (hx : x ≤ 838488366986797800) (hy2 : y * y ≤ x)
+    (hsc : Nat.sqrt (x / y) ≤ irootN 3 x) (h63 : t.bound ≤ ITy.i64.maxVal) :
+    sigmaC (2 ^ 63 - 1) t .i64 x y = liftL (sigma t .i64 x y) :=
+  sigmaC_eq_partial D hy2 hsc (le_trans hy2 (le_trans hx (by decide))) h63 (by omega)
+
+/-! ## S2_trivial (S2_trivial.cpp) (WP safety2) -/
+
+/-- **`S2_trivial(x, y, z, c)` stores no value outside its type**: valid table reaching `y < 2^63`, `y² ≤ tMax` (the size condition of
+    the checked product `(T) prime * prime`; in Deleglise-Rivat `y² ≤ x ≤ tMax`): whenever the unchecked mirror returns the defining sum
+    (`C08Leaf.s2_trivial_loop_eq_executable` gives its hypotheses), every `int64_t` difference `pi_y - pi[xpp]`, `pi[y-1] - pi[prime]`, …,
+    every prefix of `T sum` (non-negative terms), `n`, `a1`, `a2`, `a1 + a2`, `n * (a1 + a2)`, `/ 2` and the final `sum += …` lie in
+    their types (`S2_trivial ≤ π(y)² ≤ y²`), and the checked mirror returns the same value.  Both widths, no bound on `x`. -/
+theorem S2_trivial_no_overflow {t : NT} (hv : t.Valid) {tMax : ℕ} {w : ITy} {x y z c : ℕ} (hyb : y ≤ t.bound)
+    (hy63 : y < 2 ^ 63) (hyM : y * y ≤ tMax) (h : s2Trivial t w x y z c = .ok (t.S2trivial x y z c)) :
+    s2TrivialC tMax t w x y z c = .ok (t.S2trivial x y z c) := by
+  refine s2TrivialC_of hv hyb (by omega) hyM h ?_
+  have := S2trivial_le hv (x := x) z c hyb
+  have h2 : (y : ℤ) * y ≤ tMax := by exact_mod_cast hyM
+  omega
 
 /-! ## LoadBalancerS2: whole histories -/
 
@@ -178,6 +264,10 @@ example : p2OpenMPC (2 ^ 63 - 1) genConsts refIter Nat.primeCounting 1000 3 2 ru
   P2_64_no_overflow refIter_spec (fun _ _ => rfl) (by decide) (by decide) genConsts genConsts_wf (by norm_num) run1000
     (fun _ _ => by decide)
 
+example : p2OpenMPC (2 ^ 127 - 1) genConsts refIter Nat.primeCounting 1000 3 2 run1000 = .ok (Spec.P2 1000 2 : ℤ) :=
+  P2_128_no_overflow refIter_spec (fun _ _ => rfl) (by decide) (by decide) genConsts genConsts_wf (by norm_num) (by norm_num)
+    run1000 (fun _ _ => by decide)
+
 example : bOpenMPC (2 ^ 64 - 1) genConsts refIter Nat.primeCounting 1000 3 run1000 = .ok (Spec.B 1000 3) :=
   (B_64_no_overflow refIter_spec (fun _ _ => rfl) 3 genConsts genConsts_wf (by norm_num) run1000 (fun _ => by decide)).1
 
@@ -189,9 +279,9 @@ example : p2ThreadC (2 ^ 63 - 1) refIter Nat.primeCounting 1000 3 31 333 = .ok (
 example : p2ThreadC 15 (listIter primes60 2) (listPi primes60) 100 2 10 52 = .error .ovfSum := by decide +kernel
 example : p2ThreadC 25 (listIter primes60 2) (listPi primes60) 100 2 10 52 = .ok 25 := by decide +kernel
 
-/-- the finding on the input of the 0.1 s reproducer `P2((int128_t) 10^22, 10^11 - 1, 4118054813, 1)` (real code: returns
-    `-9223372036854775808`, exact value `0`); `pi_noprint` is a parameter of the model, here the constant the real one returns -/
-example : p2OpenMPC (2 ^ 127 - 1) genConsts refIter (fun _ => 4118054813) (10 ^ 22) (10 ^ 11 - 1) 4118054813 run1000
+/-- the finding on the input of the 0.1 s reproducer `P2((int128_t) 10^22, 10^11 - 1, 4118054813, 1)` (real code of 0995f00:
+    returned `-9223372036854775808`, exact value `0`); `pi_noprint` is a parameter of the model, here the constant the real one returns -/
+example : p2OpenMPCPreFix (2 ^ 127 - 1) genConsts refIter (fun _ => 4118054813) (10 ^ 22) (10 ^ 11 - 1) 4118054813 run1000
     = .error .ovfInitA :=
   P2_128_closed_form_overflows _ _ _ _ _ _ _ _ (by norm_num) (by
     rw [isqrtN_eq]
@@ -204,6 +294,30 @@ example : p2OpenMPC (2 ^ 127 - 1) genConsts refIter (fun _ => 4118054813) (10 ^ 
 example : S2.HandsBelow S2.wInit := S2.handsBelow_init _ _ _ _ _
 example : S2.handOk (S2.run S2.wCfg S2.wInit (S2.wPre.take 10)) (S2.wPre.getD 10 S2.wLast) = true := by decide +kernel
 
+
+/-- `Sigma` on `x = 100000`, `y = 60` (the hypotheses of `SigmaDom` and of the whole-function theorem are satisfiable) -/
+example : sigmaC (2 ^ 63 - 1) (NT.build 2000) .i64 100000 60 = liftL (sigma (NT.build 2000) .i64 100000 60) :=
+  Sigma_64_no_overflow_partial
+    ⟨NT.build_valid 2000, by norm_num,
+      by rw [irootN_eq_of (r := 46) (by norm_num) (by norm_num) (by norm_num)]; norm_num,
+      by show 60 ≤ 2000; norm_num, by show Nat.sqrt 100000 ≤ 2000; exact (Nat.sqrt_lt.2 (by norm_num)).le,
+      by show 100000 / (xStar 100000 60 * 60) ≤ 2000
+         exact le_trans (Nat.div_le_div_left (Nat.le_mul_of_pos_left 60 (one_le_xStar _ _)) (by norm_num)) (by norm_num)⟩
+    (by norm_num) (by norm_num)
+    (by rw [irootN_eq_of (r := 46) (by norm_num) (by norm_num) (by norm_num)]
+        exact Nat.lt_succ_iff.1 (Nat.sqrt_lt.2 (by norm_num)))
+    (by show 2000 ≤ ITy.i64.maxVal; decide)
+
+/-- `S2_trivial(2000, 20, 100, 2) = 5` (one loop term `π(20) - π(16) = 2`, closed form `3 · (0 + 2) / 2 = 3`): the checked mirror
+    returns it with `tMax = 6` and reports the overflow of `n * (a1 + a2) = 6`… no: of `sum + 3 = 5 > 4` / the product with `tMax = 4` -/
+example : (s2TrivialC 6 (NT.build 100) .i64 2000 20 100 2).toOption = some 5 := by decide +kernel
+example : (s2TrivialC 4 (NT.build 100) .i64 2000 20 100 2).toOption = none := by decide +kernel
+example : (s2Trivial (NT.build 100) .i64 2000 20 100 2).toOption = some 5 := by decide +kernel
+
+/-- the checked closed forms are not vacuous: in a 7-bit `T` (`tMax = 63`) `Sigma3(10, 0)` overflows (`10 * 9 * 19 = 1710`) -/
+example : sigma3C 63 10 0 = .error .ovfClosed := by decide
+example : sigma3C 2000 10 0 = .ok 275 := by decide
+
 end Pc.C16Safety
 
 #print axioms Pc.C16Safety.pi_phi_bounds
@@ -211,7 +325,7 @@ end Pc.C16Safety
 #print axioms Pc.C16Safety.prime_triple_bounds
 #print axioms Pc.C16Safety.P2_thread_no_overflow
 #print axioms Pc.C16Safety.P2_64_no_overflow
-#print axioms Pc.C16Safety.P2_128_no_overflow_of_small_a
+#print axioms Pc.C16Safety.P2_128_no_overflow
 #print axioms Pc.C16Safety.P2_128_closed_form_overflows
 #print axioms Pc.C16Safety.closed_form_threshold
 #print axioms Pc.C16Safety.B_64_no_overflow
@@ -220,3 +334,10 @@ end Pc.C16Safety
 #print axioms Pc.C16Safety.s2_whole_history_safety_refuted
 #print axioms Pc.C16Safety.s2_hands_below
 #print axioms Pc.C16Safety.s2_step_no_overflow_of_hand_partial
+#print axioms Pc.C16Safety.Sigma_closed_forms_no_overflow
+#print axioms Pc.C16Safety.Sigma456_loop_no_overflow
+#print axioms Pc.C16Safety.Sigma456_final_bounds
+#print axioms Pc.C16Safety.Sigma_no_overflow_partial
+#print axioms Pc.C16Safety.Sigma_128_no_overflow
+#print axioms Pc.C16Safety.Sigma_64_no_overflow_partial
+#print axioms Pc.C16Safety.S2_trivial_no_overflow
